@@ -219,7 +219,6 @@ class Server(object):
                     raise
                 except UnicodeDecodeError:
                     bad_arguments.send(self.io)
-                    raise
                 except Exception:
                     unhandled_error.send(self.io)
                     raise
